@@ -885,6 +885,14 @@ func (f *c11Family) genOp(rng *rand.Rand, w c11World) c11Op {
 	op := c11Op{Parent: t.Name}
 	if rng.Intn(3) == 0 {
 		op.PSel = genC11Cond(rng, maxN, []string{"where"})
+		if op.PSel.Kind == "eq" || op.PSel.Kind == "gt" {
+			op.PSel = c11Cond{Kind: "in", Style: "where"}
+			for n := 1; n <= maxN; n++ {
+				if rng.Intn(4) > 0 {
+					op.PSel.Set = append(op.PSel.Set, n)
+				}
+			}
+		}
 	}
 	switch x := rng.Intn(10); {
 	case x < 4: // preload only
@@ -904,6 +912,9 @@ func (f *c11Family) genOp(rng *rand.Rand, w c11World) c11Op {
 		op.Nodes = f.genNodes(rng, t, 0, true, maxN, rng.Intn(2) == 0)
 		if len(op.Nodes) == 0 {
 			op.Nodes = f.genNodes(rng, t, 0, true, maxN, false)
+		}
+		if op.Shape == "single" && c11DeepChain(op.Nodes, 0) && rng.Intn(4) > 0 {
+			op.Shape = "slice" // stay away from the listed finding F6b most of the time
 		}
 	default:
 		op.Kind = "assoc"
